@@ -142,6 +142,9 @@ func shrink(p *Plan) []*Plan {
 		if rq.HostOverride != "" {
 			add(func(q *Plan) { q.Reqs[i].HostOverride = "" })
 		}
+		if rq.EmptyHost {
+			add(func(q *Plan) { q.Reqs[i].EmptyHost = false })
+		}
 		if rq.Method != "GET" || rq.BodyLen != 0 {
 			add(func(q *Plan) { q.Reqs[i].Method, q.Reqs[i].BodyLen = "GET", 0 })
 		}
